@@ -38,6 +38,7 @@ func init() {
 			{ID: "C03-R6", Title: "error renderers index and slice only under a length test", Floor: 5, Run: formatterBounds},
 			{ID: "C03-R7", Title: "a channel field is closed at most once", Floor: 5, Run: func(c *core.Ctx) { closeOnce(c, "") }},
 			{ID: "C03-R8", Title: "parse results tested for nil at one site are not stored untested at another", Floor: 1, Run: nilBeliefAcrossCallSites},
+			{ID: "C03-R9", Title: "no method call on the operand of a failed type assertion outside the recover boundary", Floor: 1, Run: failedAssertionOperandUse},
 		},
 	})
 }
